@@ -2027,6 +2027,7 @@ def scope_threading(check: Check, repo: Repo, mods: list[Module], rule: str = "S
         "wrong scope - the resolver then receives other argument values than input coercion prescribes",
     )
     defs: dict[str, list[str]] = {}
+    home: dict[str, str] = {}
     for m in repo.modules.values():
         for f in m.functions():
             if isinstance(f, ast.Lambda) or qualname_of(f) != f.name:
@@ -2034,6 +2035,7 @@ def scope_threading(check: Check, repo: Repo, mods: list[Module], rule: str = "S
             ps = [a.arg for a in f.args.posonlyargs + f.args.args + f.args.kwonlyargs]
             if all(s in ps for s in SCOPE_PARAMS):
                 defs.setdefault(f.name, ps)
+                home.setdefault(f.name, m.name)
     if len(defs) < 8:
         raise AnalysisError("SCOPE-THREAD: functions taking both variable scopes not found")
     n = 0
@@ -2041,6 +2043,9 @@ def scope_threading(check: Check, repo: Repo, mods: list[Module], rule: str = "S
         for c in ast.walk(m.tree):
             if not (isinstance(c, ast.Call) and isinstance(c.func, ast.Name) and c.func.id in defs):
                 continue
+            local = m.defs.get(c.func.id)
+            if isinstance(local, (ast.FunctionDef, ast.AsyncFunctionDef)) and m.name != home[c.func.id]:
+                continue  # a function of this module that merely shares the name
             ps = defs[c.func.id]
             got: dict[str, ast.AST] = {}
             for i, a in enumerate(c.args):
@@ -2234,14 +2239,19 @@ def nulled_work_aborted(check: Check, repo: Repo, rule: str = "NULLED-ABORTED") 
         "the sources of the streams it opened unclosed",
     )
     fn = repo.func("execution.incremental.incremental_executor", "IncrementalExecutor.get_incremental_work")
+    from rules.language_rules import enclosing_conditions, norm_facts
+
     tests = [c for c in walk_body(fn) if isinstance(c, ast.Call) and call_name(c).split(".")[-1] == "has_nulled_position"]
     if not tests:
         raise AnalysisError("get_incremental_work: has_nulled_position tests not found")
+    flow = FactFlow(CFG(fn))
+    aborts = [x for x in walk_body(fn) if isinstance(x, ast.Call) and isinstance(x.func, ast.Attribute) and x.func.attr == "abort"]
     for c in tests:
-        owner = next((a for a in ancestors(c) if isinstance(a, ast.If) and any(c is x for x in ast.walk(a.test))), None)
-        aborted = owner is not None and any(isinstance(x, ast.Call) and isinstance(x.func, ast.Attribute) and x.func.attr == "abort" for s in owner.body for x in ast.walk(s))
-        check.ob(rule, c, f"get_incremental_work: {unparse(c)}", aborted,
-                 "the dropped element is aborted in the same branch" if aborted else "elements at a nulled position are only filtered out, never aborted: running work and open sources are abandoned")
+        t = unparse(c)
+        # an abort call that is reached exactly when this test holds (in either spelling of the branch)
+        aborted = any((t, True) in (norm_facts(flow.facts_at(a)) | enclosing_conditions(a)) for a in aborts)
+        check.ob(rule, c, f"get_incremental_work: {t}", aborted,
+                 "the dropped element is aborted where the test holds" if aborted else "elements at a nulled position are only filtered out, never aborted: running work and open sources are abandoned")
     check.floor(rule, 2, "nulled-position filters (groups and streams)")
 
 
@@ -2259,9 +2269,17 @@ def hook_after_drain(check: Check, repo: Repo, rule: str = "HOOK-AFTER-DRAIN") -
     )
     fn = repo.func("execution.executor", "Executor.run_async_work_finished_hook")
     scopes = [fn] + [f for f in ast.walk(fn) if isinstance(f, (ast.AsyncFunctionDef, ast.FunctionDef)) and f is not fn]
+    # a local function that does nothing but call the hook (under suppress) stands for the hook
+    runners = {"hook"}
+    for f in scopes[1:]:
+        if isinstance(f, ast.FunctionDef) and any(isinstance(c, ast.Call) and isinstance(c.func, ast.Name) and c.func.id == "hook" for c in walk_body(f)) \
+                and not any(isinstance(x, (ast.Await, ast.While, ast.For)) for x in ast.walk(f)):
+            runners.add(f.name)
     n = 0
     for sc in scopes:
-        calls = [c for c in walk_body(sc) if isinstance(c, ast.Call) and isinstance(c.func, ast.Name) and c.func.id == "hook"]
+        if getattr(sc, "name", "") in runners - {"hook"}:
+            continue
+        calls = [c for c in walk_body(sc) if isinstance(c, ast.Call) and isinstance(c.func, ast.Name) and c.func.id in runners]
         if not calls:
             continue
         flow = FactFlow(CFG(sc))
@@ -2277,7 +2295,7 @@ def hook_after_drain(check: Check, repo: Repo, rule: str = "HOOK-AFTER-DRAIN") -
                         subj = None
                     if subj == "background_futures" and p is False:
                         ok = True
-            check.ob(rule, c, f"{qualname_of(c)}: hook(info)", ok,
+            check.ob(rule, c, f"{qualname_of(c)}: {unparse(c)}", ok,
                      "only when the set of tracked futures is empty" if ok else "nothing establishes that the tracked futures are all done here")
     if n < 2:
         raise AnalysisError("run_async_work_finished_hook: hook calls not found")
